@@ -30,7 +30,7 @@ def sig_matches(entry_sig, sig):
 
 
 def _all_parts(mod, prop, tier):
-    """the property's own parts plus the shared default-arguments part (mc/props/defaults.py) reporting-modes part (mc/props/reports.py) and results-as-operands part (mc/props/compose.py),
+    """the property's own parts plus the shared default-arguments part (mc/props/defaults.py) reporting-modes part (mc/props/reports.py) results-as-operands part (mc/props/compose.py) and path-shapes part (mc/props/paths.py),
     where their tables have rows for it"""
     parts = list(mod.parts(tier))
     from mc.props import defaults
@@ -44,6 +44,10 @@ def _all_parts(mod, prop, tier):
     cp = compose.part(prop)
     if cp is not None:
         parts.append(cp)
+    from mc.props import paths
+    pp = paths.part(prop)
+    if pp is not None:
+        parts.append(pp)
     return parts
 
 
